@@ -4,6 +4,6 @@ set -e
 export GOFLAGS=-mod=mod GOPROXY=off GOSUMDB=off GOTOOLCHAIN=local
 cd "$(dirname "${BASH_SOURCE[0]}")"
 mkdir -p .bin .work evidence replays
-(cd harness && go build -o ../.bin/vcheck.setup ./cmd/vcheck && go build -race -o ../.bin/vcheck-race.setup ./cmd/vcheck)
+(cd harness && go build -tags all -o ../.bin/vcheck.setup ./cmd/vcheck && go build -tags all -race -o ../.bin/vcheck-race.setup ./cmd/vcheck)
 rm -f .bin/vcheck.setup .bin/vcheck-race.setup
 echo "setup ok"
